@@ -89,7 +89,7 @@ func TestC10ValidatorAPI(t *testing.T) {
 	vstat.Assume("alterations that leave signing root, signature bytes and the named validator unchanged (unsigned metadata) assert nothing")
 	rapid.Check(t, func(rt *rapid.T) {
 		n := rapid.SampledFrom([]int{3, 4, 6}).Draw(rt, "n")
-		cl := newCluster(n)
+		cl := newCluster(n, rapid.IntRange(0, 2).Draw(rt, "forksAtGenesis") == 0)
 		me := rapid.IntRange(1, n).Draw(rt, "me")
 		vi := rapid.IntRange(0, len(cl.vals)-1).Draw(rt, "validator")
 		v := cl.vals[vi]
@@ -280,7 +280,7 @@ func TestC10PeerPath(t *testing.T) {
 	}
 	rapid.Check(t, func(rt *rapid.T) {
 		n := rapid.SampledFrom([]int{3, 4, 6}).Draw(rt, "n")
-		cl := newCluster(n)
+		cl := newCluster(n, rapid.IntRange(0, 2).Draw(rt, "forksAtGenesis") == 0)
 		meIdx := rapid.IntRange(0, n-1).Draw(rt, "me")
 		from := (meIdx + 1 + rapid.IntRange(0, n-2).Draw(rt, "from")) % n
 		share := from + 1
@@ -351,7 +351,7 @@ func TestC10PeerPath(t *testing.T) {
 					switch {
 					case strings.HasSuffix(l.Path, ".Slot"):
 						x := uint64(bFork.Epoch) * cl.bn.SPE
-						if before {
+						if before && x > 0 {
 							x--
 						}
 						l.Set(x)
@@ -540,7 +540,7 @@ func TestC10Batches(t *testing.T) {
 	vstat.Rule("C10", "batches: list endpoints called with 2..6 submissions, one to three of them invalid (same validator and slot as a valid one with altered content / other share / zero signature, or another validator), drawn order; oracle: every partial handed to a subscriber verifies under the public share of its validator and this node's share index; non-trivial = the invalid entry shares validator and slot with a valid one")
 	rapid.Check(t, func(rt *rapid.T) {
 		n := rapid.SampledFrom([]int{3, 4, 6}).Draw(rt, "n")
-		cl := newCluster(n)
+		cl := newCluster(n, rapid.IntRange(0, 2).Draw(rt, "forksAtGenesis") == 0)
 		me := rapid.IntRange(1, n).Draw(rt, "me")
 		listOnce.Do(func() {
 			for i := range builders {
@@ -648,7 +648,7 @@ func TestC10PeerBatches(t *testing.T) {
 	}
 	rapid.Check(t, func(rt *rapid.T) {
 		n := rapid.SampledFrom([]int{3, 4, 6}).Draw(rt, "n")
-		cl := newCluster(n)
+		cl := newCluster(n, rapid.IntRange(0, 2).Draw(rt, "forksAtGenesis") == 0)
 		meIdx := rapid.IntRange(0, n-1).Draw(rt, "me")
 		from := (meIdx + 1 + rapid.IntRange(0, n-2).Draw(rt, "from")) % n
 		share := from + 1
